@@ -16,8 +16,8 @@ use std::path::Path;
 pub const CHECK: Check = Check { id: "C17", level: "exploration", flavours: &["prod"], run, replay };
 
 const RULE: &str = "cases = (file tree: empty files, nested directories given as directory arguments, symbolic links to a file and to a directory inside the tree, unicode / space / dash names, names holding [ ] * ? next to the names they match as patterns, paths longer than 100 and 200 bytes, sizes \
-incl. around 128 KiB and 4 MiB; layer options; compression level; 1..3 key pairs made by `mlar keygen`; pipeline of 0..2 \
-further stages among convert(other layers / keys / level) and repair(intact archive), then negative runs) executed with the \
+incl. around 128 KiB and 4 MiB; layer options; compression level; 1..3 key pairs made by `mlar keygen` (read with the recipient's key alone or after / between a stranger's key); pipeline of 0..2 \
+further stages among convert(other layers / keys / level) and repair(intact archive), then repair of the archive cut at 40..90 % into a file and into `-o -`, then negative runs) executed with the \
 `mlar` binary built from the tree. Oracle after `create` and after every stage: `list` prints exactly the given paths; \
 `list -vv` shows the humansize-DECIMAL size and the SHA-256 of each file; `cat`, `extract` (whole archive and one listed \
 name, into directories that already hold a longer stale copy of a member, the output directory being named plainly, \
@@ -140,7 +140,14 @@ fn run_ok(args: &[String], cwd: &Path, what: &str) -> Result<std::process::Outpu
 /// all the read-side commands on `archive`, compared with `expected` (archive name -> bytes)
 fn verify(s: &Scratch, archive: &str, key: Option<&str>, expected: &BTreeMap<String, Vec<u8>>, tag: &str, full: bool) -> Result<(), String> {
     let d = &s.path;
-    let keyargs: Vec<String> = key.map(|k| vec!["-k".to_string(), k.to_string()]).unwrap_or_default();
+    // several candidate keys may be given: a stranger's key before the recipient's in two cases out of three
+    let keyargs: Vec<String> = key
+        .map(|k| match util::hash64(format!("{tag}|{archive}|keys").as_bytes()) % 3 {
+            0 => vec!["-k".to_string(), k.to_string()],
+            1 => vec!["-k".to_string(), "stranger".to_string(), "-k".to_string(), k.to_string()],
+            _ => vec!["-k".to_string(), "stranger".to_string(), "-k".to_string(), k.to_string(), "-k".to_string(), "stranger".to_string()],
+        })
+        .unwrap_or_default();
     // list
     let mut a = vec!["list".to_string(), "-i".into(), archive.into()];
     a.extend(keyargs.clone());
@@ -404,6 +411,61 @@ fn oracle(c: &Case, st: &mut Stats) -> Result<(), String> {
         archive = next;
         let last = i + 1 == c.stages.len();
         verify(&s, &archive, key_for(&cur, c.reader_key).as_deref(), &expected, &format!("{cmd}{}", i + 1), last)?;
+    }
+    // ---- the archive cut short, repaired into a file and into standard output (`-o -`): the same archive either way,
+    // one that opens, with names of the original and contents that are prefixes
+    {
+        let full = std::fs::read(d.join(&archive)).map_err(|e| format!("HARNESS: {e}"))?;
+        let cut = full.len() * (40 + (c.reader_key as usize % 50)) / 100;
+        std::fs::write(d.join("cut.mla"), &full[..cut]).map_err(|e| format!("HARNESS: {e}"))?;
+        let mut base = vec!["repair".to_string(), "-i".into(), "cut.mla".into(), "-l".into()];
+        if let Some(k) = key_for(&cur, c.reader_key) {
+            base.push("-k".into());
+            base.push(k);
+        }
+        let mut to_file = base.clone();
+        to_file.extend(["-o".to_string(), "rep.mla".to_string()]);
+        let mut to_stdout = base.clone();
+        to_stdout.extend(["-o".to_string(), "-".to_string()]);
+        let argv: Vec<&str> = to_file.iter().map(|x| x.as_str()).collect();
+        let of = cli::mlar_s(&argv, &d).map_err(|e| format!("HARNESS: {e}"))?;
+        let argv: Vec<&str> = to_stdout.iter().map(|x| x.as_str()).collect();
+        let os = cli::mlar_s(&argv, &d).map_err(|e| format!("HARNESS: {e}"))?;
+        if of.status.success() != os.status.success() {
+            return Err(format!("`mlar repair` of the archive cut at {cut} of {} bytes: exit status differs between -o FILE ({:?}) and -o - ({:?})", full.len(), of.status.code(), os.status.code()));
+        }
+        if of.status.success() {
+            st.label("repair of a cut archive: file and stdout compared");
+            // (the two archives need not be byte-identical: the file index is written in hash-map order)
+            std::fs::write(d.join("rep-stdout.mla"), &os.stdout).map_err(|e| format!("HARNESS: {e}"))?;
+            let mut listings: Vec<Vec<(String, Vec<u8>)>> = Vec::new();
+            for (which, f) in [("-o FILE", "rep.mla"), ("-o -", "rep-stdout.mla")] {
+                let o = run_ok(&["list".into(), "-i".into(), f.into()], &d, &format!("list of the archive repaired with {which}"))?;
+                let mut got = Vec::new();
+                for n in String::from_utf8_lossy(&o.stdout).lines() {
+                    if !expected.contains_key(n) {
+                        return Err(format!("the archive repaired from a cut ({which}) lists {n:?}, which is not an input path"));
+                    }
+                    let c2 = run_ok(&["cat".into(), "-i".into(), f.into(), "--".into(), n.to_string()], &d, &format!("cat from the archive repaired with {which}"))?;
+                    if !expected[n].starts_with(&c2.stdout) {
+                        return Err(format!("the archive repaired from a cut ({which}) holds {} bytes for {n:?} that are not a prefix of the file", c2.stdout.len()));
+                    }
+                    got.push((n.to_string(), c2.stdout));
+                }
+                got.sort();
+                listings.push(got);
+            }
+            if listings[0] != listings[1] {
+                return Err(format!(
+                    "`mlar repair` of the archive cut at {cut} of {} bytes: -o FILE recovers {:?}, -o - recovers {:?}",
+                    full.len(),
+                    listings[0].iter().map(|(n, d)| (n.clone(), d.len())).collect::<Vec<_>>(),
+                    listings[1].iter().map(|(n, d)| (n.clone(), d.len())).collect::<Vec<_>>()
+                ));
+            }
+        } else {
+            st.label("repair of a cut archive: refused");
+        }
     }
     // ---- negative runs on the last archive
     let enc = effective_layers(&cur) & 1 != 0;
